@@ -77,12 +77,14 @@ def run(chk):
         key = (fi.file, fi.qual)
         s = an.summ[key]
         tr = tracked_params(an, key)
+        charged_to_callers = False
         is_mutator = owner_cls == "Circuit" and (fi.node.name in CIRCUIT_MUTATORS or (fi.node.name.startswith("_") and not fi.node.name.startswith("__") and _owners(repo, fi.node.name) <= CIRCUIT_MUTATORS))
         if owner_cls == "Circuit" and fi.node.name.startswith("_") and not fi.node.name.startswith("__") and _owners(repo, fi.node.name) == {fi.node.name}:
             # a private method that no method of the class reaches: it acts on behalf of callers elsewhere in the package (a helper
             # of a transform, called on the transform's own working copy). What it does to `self` is an effect on the receiver at
             # every call site and is charged to the caller's parameters there - not an obligation of its own.
             is_mutator = True
+            charged_to_callers = True
         is_bb_init = owner_cls == "BlackBox" and fi.node.name == "__init__"
         n_funcs += 1
         if tr:
@@ -131,6 +133,10 @@ def run(chk):
                               and not (pk.get(p) == "BlackBox" and part == "self")})
             if owner_cls == "Circuit" and fi.node.name in ("__init__",):
                 aliases = []
+            if charged_to_callers:
+                # (`return self` of such a helper - a fluent loader called on the caller's own new circuit - aliases the receiver at
+                # the call site: the caller's summary carries it, and the caller's own freshness obligation decides)
+                aliases = [(p, part) for (p, part) in aliases if p != "self"]
             if tr:
                 chk.ob("C19.freshness", f"{fi.file}::{fi.qual}::return", not aliases, file=fi.file, func=fi.qual, line=fi.node.lineno,
                        fact={"return_may_alias": [f"{p}.{part}" for p, part in aliases], "return_kind": s.ret_kind},
@@ -180,6 +186,9 @@ def run(chk):
                     # functions, not circuit state)
                     if d == "vars" and len(n.args) == 1 and not n.keywords and repo.class_of_expr(rel, n.args[0]) not in (None, ("circuit.py", "Circuit"), ("circuit.py", "BlackBox")):
                         continue
+                    # ... also when the class is the parameter of a function that is only ever used as a class decorator on such helper classes
+                    if d == "vars" and len(n.args) == 1 and not n.keywords and isinstance(n.args[0], _ast.Name) and _only_decorates_helper_classes(repo, rel, tree, n):
+                        continue
                     reflection.append((rel, n.lineno, d))
             if isinstance(n, _ast.Attribute) and n.attr == "__dict__":
                 if repo.class_of_expr(rel, n.value) not in (None, ("circuit.py", "Circuit"), ("circuit.py", "BlackBox")):
@@ -192,3 +201,32 @@ def run(chk):
     chk.extra.update({"call_sites": an.call_sites, "resolved_call_sites": an.resolved_sites, "mutator_call_sites_on_parameter_state": an.mutator_sites,
                       "fixpoint_rounds": an.rounds, "circuit_constructor_sites": ctor_sites, "copy_sites": copy_sites,
                       "derived_mutators": sorted(derived_mutators)})
+
+
+def _only_decorates_helper_classes(repo, rel, tree, call):
+    """`vars(cls)` inside `def deco(cls)` where every reference to `deco` in the package is a decorator of a class outside the
+    hierarchy of Circuit / BlackBox: the namespace read is that of a helper class (functions, no circuit state)."""
+    import ast as _ast
+
+    owner = next((f for f in tree.body if isinstance(f, _ast.FunctionDef) and any(x is call for x in _ast.walk(f))), None)
+    if owner is None or call.args[0].id not in [a.arg for a in owner.args.posonlyargs + owner.args.args][:1]:
+        return False
+    circuit_family = {k for top in ("Circuit", "BlackBox") for k in repo.class_mro.get(("circuit.py", top), [("circuit.py", top)])}
+    decorated, refs = 0, 0
+    for rel2, tree2 in repo.tree.items():
+        dec_ids = set()
+        for c in _ast.walk(tree2):
+            if isinstance(c, _ast.ClassDef):
+                for dnode in c.decorator_list:
+                    base = dnode.func if isinstance(dnode, _ast.Call) else dnode
+                    nm = base.id if isinstance(base, _ast.Name) else base.attr if isinstance(base, _ast.Attribute) else None
+                    if nm == owner.name:
+                        if (rel2, c.name) in circuit_family or isinstance(dnode, _ast.Call):
+                            return False
+                        decorated += 1
+                        dec_ids.add(id(base))
+        for x in _ast.walk(tree2):
+            if (isinstance(x, _ast.Name) and x.id == owner.name and isinstance(x.ctx, _ast.Load)) or (isinstance(x, _ast.Attribute) and x.attr == owner.name):
+                if id(x) not in dec_ids:
+                    refs += 1
+    return decorated > 0 and refs == 0
